@@ -102,7 +102,7 @@ M = [
      "subsample biased towards later items (conservation laws intact; only uniformity is lost)"),
     ("M17i", "C17", DI, "    return np.random.choice(seqs, maxseqs, replace=False)\n",
      "    return np.random.choice(seqs[:-1] if len(seqs) - 1 >= maxseqs else seqs, maxseqs, replace=False)\n",
-     "downsample never keeps the last element (only uniformity is lost)"),
+     "control: downsample never keeps the last element - size and sub-multiset still hold, and the statement promises uniformity for subsample only, so this must NOT raise an alarm"),
     ("M17j", "C17", DI, "    if len(seqs) <= maxseqs:\n        return seqs\n", "    if len(seqs) < maxseqs:\n        return seqs\n",
      "downsample re-draws (permutes / converts) an input that has exactly maxseqs elements"),
     ("M17k", "C17", ST, "        optkwargs = dict(bounds=[1.5, 4.5], method=\"bounded\")\n        optkwargs.update(kwargs)\n",
